@@ -4,6 +4,7 @@
 package c09
 
 import (
+	"bytes"
 	"encoding/json"
 	"fmt"
 	"math/rand"
@@ -83,7 +84,19 @@ type q2Fact struct {
 	Close   *span
 }
 
+// pubFact is one publish step: who sent what with which packet identifier to which subscribers
+type pubFact struct {
+	C       int
+	PID     uint16
+	Topic   string
+	QoS     byte
+	Payload string
+	Span    span
+	Targets []int // subscribers whose effective QoS is > 0
+}
+
 type trace struct {
+	pubs    []pubFact
 	h       *History
 	journal []fakeredis.Cmd
 	created map[int]span         // session creation (first CONNACK)
@@ -221,9 +234,11 @@ func execute(h *History) (*trace, []string, error) {
 			seq++
 			payload := fmt.Sprintf("m%d", seq)
 			targets := matchSubs(st.Topic, st.C)
-			if _, err := c.Publish(&mqttx.Packet{Topic: st.Topic, QoS: st.QoS, Payload: []byte(payload)}, step); err != nil {
+			pp := &mqttx.Packet{Topic: st.Topic, QoS: st.QoS, Payload: []byte(payload)}
+			if _, err := c.Publish(pp, step); err != nil {
 				return nil, nil, err
 			}
+			pf := pubFact{C: st.C, PID: pp.PacketID, Topic: st.Topic, QoS: st.QoS, Payload: payload}
 			_ = c.Ping(step)
 			// online subscribers must have received it before the step ends (so that later steps are not in flight with it)
 			for _, t := range targets {
@@ -257,8 +272,11 @@ func execute(h *History) (*trace, []string, error) {
 				}
 				if q > 0 {
 					tr.msgs = append(tr.msgs, msgFact{Payload: payload, To: t, Pub: span{from, to}, QoS: q})
+					pf.Targets = append(pf.Targets, t)
 				}
 			}
+			pf.Span = span{from, to}
+			tr.pubs = append(tr.pubs, pf)
 		case "ack":
 			if c == nil || len(pending[st.C]) == 0 {
 				break
@@ -335,6 +353,7 @@ func checkPrefix(tr *trace, k int) (fs []finding, obs map[string]int, rerr error
 	if err := srv.Apply(tr.journal[:k]); err != nil {
 		return nil, nil, err
 	}
+	crashState := srv.Snapshot()
 	var b *broker.Broker
 	func() {
 		defer func() {
@@ -425,34 +444,137 @@ func checkPrefix(tr *trace, k int) (fs []finding, obs map[string]int, rerr error
 		}
 		need[m.To][m.Payload] = true
 	}
-	idxs := []int{}
-	for i := range need {
-		idxs = append(idxs, i)
-	}
-	sort.Ints(idxs)
-	for _, i := range idxs {
+	// A publish that was in flight when the broker died: its publisher has no acknowledgement, comes back with
+	// Clean Start 0 and sends the PUBLISH again (same packet identifier, DUP). Once that retransmission is
+	// acknowledged the message is one "whose publisher had been acknowledged": the subscribers must get it.
+	inflightPub := map[string]bool{}
+	re := map[int]*wire.Client{} // connections re-established after the restart, one per client id
+	defer func() {
+		for _, c := range re {
+			c.Close()
+		}
+	}()
+	reconnect := func(i int) (*wire.Client, *mqttx.Packet, error) {
 		c, err := wire.Dial(h.IDs[i], b.Addr, mqttx.Version(h.V[i]))
 		if err != nil {
-			return fs, obs, err
+			return nil, nil, err
 		}
 		p := &mqttx.Packet{ClientID: h.IDs[i], CleanStart: false}
 		if h.V[i] == 5 {
 			e := uint32(7200)
 			p.Props = &mqttx.Props{SessionExpiry: &e}
 		}
+		c.AutoAck = false // what is stored for the session is observed, not consumed
 		ack, err := c.Connect(p, step)
 		if err != nil || ack.Code != 0 {
-			add("reconnect.failed", fmt.Sprintf("%q cannot reconnect after the crash at %d: %v %v", h.IDs[i], k, ack, err))
 			c.Close()
+			return nil, ack, fmt.Errorf("connect: %v %v", ack, err)
+		}
+		re[i] = c
+		return c, ack, nil
+	}
+	for _, pf := range tr.pubs {
+		if !(pf.Span.From < k && k < pf.Span.To) || !alive[pf.C] {
 			continue
 		}
-		if !ack.SessionPresent {
-			add("reconnect.session_present_0", fmt.Sprintf("%q reconnects with Clean Start 0 after the crash at %d and gets Session Present 0", h.IDs[i], k))
+		c := re[pf.C]
+		if c == nil {
+			var err error
+			if c, _, err = reconnect(pf.C); err != nil {
+				continue
+			}
 		}
+		_ = c.Send(&mqttx.Packet{Type: mqttx.PUBLISH, Topic: pf.Topic, QoS: pf.QoS, Dup: true, PacketID: pf.PID, Payload: []byte(pf.Payload)})
+		acked := false
+		var err error
+		if pf.QoS == 1 {
+			_, err = c.WaitType(mqttx.PUBACK, pf.PID, step)
+			acked = err == nil
+		} else if _, err = c.WaitType(mqttx.PUBREC, pf.PID, step); err == nil {
+			_ = c.Send(&mqttx.Packet{Type: mqttx.PUBREL, PacketID: pf.PID})
+			_, err = c.WaitType(mqttx.PUBCOMP, pf.PID, step)
+			acked = err == nil
+		}
+		if !acked {
+			add("inflight_publish.no_ack_after_restart", fmt.Sprintf("PUBLISH %s (qos %d, id %d) retransmitted by %q after the crash at %d is not acknowledged", pf.Payload, pf.QoS, pf.PID, h.IDs[pf.C], k))
+			continue
+		}
+		obs["inflight_publishes_retransmitted"]++
+		for _, t := range pf.Targets {
+			if alive[t] {
+				if need[t] == nil {
+					need[t] = map[string]bool{}
+				}
+				need[t][pf.Payload] = true
+				inflightPub[fmt.Sprintf("%d|%s", t, pf.Payload)] = true
+			}
+		}
+	}
+	idxs := []int{}
+	for i := range need {
+		idxs = append(idxs, i)
+	}
+	sort.Ints(idxs)
+	for _, i := range idxs {
+		c := re[i]
+		if c == nil {
+			var ack *mqttx.Packet
+			var err error
+			c, ack, err = reconnect(i)
+			if err != nil {
+				add("reconnect.failed", fmt.Sprintf("%q cannot reconnect after the crash at %d: %v %v", h.IDs[i], k, ack, err))
+				continue
+			}
+			if !ack.SessionPresent {
+				add("reconnect.session_present_0", fmt.Sprintf("%q reconnects with Clean Start 0 after the crash at %d and gets Session Present 0", h.IDs[i], k))
+			}
+		}
+		// Barrier instead of a deadline: what is stored for the session is sent in queue order, so once a
+		// sentinel published now has arrived, everything stored before it has arrived as well.
+		sentinel := fmt.Sprintf("sentinel-%d-%d", k, i)
+		if _, err := c.Subscribe([]mqttx.Sub{{Filter: "c09sentinel/" + h.IDs[i], QoS: 1}}, 0, step); err == nil {
+			b.Publish("c09sentinel/"+h.IDs[i], sentinel, 1, false)
+			if err := c.WaitPayload(sentinel, step); err != nil {
+				add("reconnect.sentinel_missing", fmt.Sprintf("%q does not receive a message published after its reconnect (crash at %d)", h.IDs[i], k))
+			}
+		}
+		pls := make([]string, 0, len(need[i]))
 		for pl := range need[i] {
+			pls = append(pls, pl)
+		}
+		sort.Strings(pls)
+		for _, pl := range pls {
 			obs["redeliveries_checked"]++
-			if err := c.WaitPayload(pl, 3*time.Second); err != nil {
-				add("message.lost", fmt.Sprintf("message %s (publisher acknowledged, subscriber %q had not acknowledged) is not delivered after the crash at %d", pl, h.IDs[i], k))
+			wait := 50 * time.Millisecond
+			if err := c.WaitPayload(pl, wait); err != nil {
+				if inflightPub[fmt.Sprintf("%d|%s", i, pl)] {
+					// what of this publish had reached the store when the broker died
+					var pf pubFact
+					for _, x := range tr.pubs {
+						if x.Payload == pl {
+							pf = x
+						}
+					}
+					unackRec, queued := false, false
+					for _, cmd := range tr.journal[pf.Span.From:k] {
+						if len(cmd.Args) < 2 {
+							continue
+						}
+						if op, key := strings.ToUpper(string(cmd.Args[0])), string(cmd.Args[1]); op == "HSET" && key == "unack:"+h.IDs[pf.C] {
+							unackRec = true
+						}
+					}
+					// is an element with this payload in the subscriber's stored queue (state the broker restarted on)
+					needle := append([]byte{byte(len(pl) >> 8), byte(len(pl))}, pl...)
+					for _, e := range crashState.Lists["queue:"+h.IDs[i]] {
+						if bytes.Contains(e, needle) {
+							queued = true
+						}
+					}
+					add(fmt.Sprintf("message.lost:publish_in_flight_at_crash:qos=%d:unack_id_stored=%v:queued=%v", pf.QoS, unackRec, queued), fmt.Sprintf("message %s (qos %d, id %d) was being published when the broker died at %d; its retransmission after the restart was acknowledged but subscriber %q never gets it", pl, pf.QoS, pf.PID, k, h.IDs[i]))
+				} else {
+					add("message.lost", fmt.Sprintf("message %s (publisher acknowledged, subscriber %q had not acknowledged) is not delivered after the crash at %d", pl, h.IDs[i], k))
+				}
 			}
 		}
 		c.Close()
